@@ -467,8 +467,9 @@ func (prop) Run(in json.RawMessage, scratch string) core.Result {
 		case cls:
 			res.Class = "nested_generic_arg_list"
 		default:
-			for _, p := range append(ty.foreignPkgs(inp.Self), inp.Pre...) {
-				if predeclared[lastSeg(p)] {
+			// the symptom of the (repaired, fixes/C03-3) defect of the import tracker; labels a report, suppresses nothing
+			for _, n := range obs.Imports {
+				if types.Universe.Lookup(n) != nil {
 					res.Class = "import_name_predeclared"
 				}
 			}
@@ -565,6 +566,12 @@ func (prop) Run(in json.RawMessage, scratch string) core.Result {
 			res.Tags = append(res.Tags, "target:own-package")
 		default:
 			res.Tags = append(res.Tags, "target:other-package")
+		}
+		for _, p := range append(append([]string{}, fp...), inp.Pre...) {
+			if types.Universe.Lookup(strings.ToLower(lastSeg(p))) != nil {
+				res.Tags = append(res.Tags, "import-candidate-predeclared") // path ending in /string, /error, /len ...
+				break
+			}
 		}
 		res.Tags = append(res.Tags, fmt.Sprintf("depth:%d", ty.depth()))
 		shape := map[string]bool{}
